@@ -39,7 +39,7 @@ from hypothesis import strategies as st
 
 from harness import edsmodel as em
 from harness import refcodec as rc
-from harness.c08 import DEVINFO_ATTR, scratch_dir
+from harness.c08 import DEVINFO_ATTR, hyp_chunks, scratch_dir
 from harness.core import Discrepancy, Outcome
 
 PROPERTY = "C14"
@@ -66,7 +66,7 @@ ASSUMPTIONS = [
     "[FileInfo] is not compared (time stamps; export_eds' mutable default argument leaks keys between calls)",
     "compact arrays of a model are built in code as arrays with explicit members (at most 20)",
 ]
-BUDGET = {"quick": 40, "thorough": 330}
+BUDGET = {"quick": 35, "thorough": 240}
 
 _feature_counts = Counter()
 VAR_ATTRS = ("name", "index", "subindex", "data_type", "access_type", "pdo_mappable", "default",
@@ -282,8 +282,7 @@ def excluded_class(case):
     ex = em.excluded_class(model)
     if ex:
         return ex
-    if model["comments"] and "\n".join(model["comments"]).endswith("\n"):
-        return "G1 comments ending in an empty line (export drops it: splitlines)"
+    # G1 (comments ending in an empty line) was repaired in /repo (commit 3761bfa): not excluded
     return None
 
 
@@ -320,7 +319,7 @@ def run_case(case) -> Outcome:
     for f in nt:
         _feature_counts[f] += 1
     family = case.get("family", "hyp")
-    klass = (f"{family}/{doc}/{dest}" if family != "hyp" else
+    klass = (f"{family}/{doc}" if family != "hyp" else
              f"hyp/{route}/{doc}/{dest}/" + ("+".join(sorted(nt)) or "plain"))
     D = []
     # ---- export to every destination
@@ -443,7 +442,8 @@ def search(ctx):
     ctx.enumerate(enum_cases(ctx.tier),
                   "boundary values of every integer type as default/parameter value/limits x eds/dcf; every "
                   "sub-index 1..0xFE in records and arrays; node ids 1..127 x bit rates")
-    ctx.hypothesis(cases(), 8000 if ctx.tier == "thorough" else 1100)
+    total, chunk = (16000, 500) if ctx.tier == "thorough" else (1100, 275)
+    hyp_chunks(ctx, cases(), total, chunk)
     if _feature_counts and ctx.shard == 0:
         ctx.notes.append("shard 0 feature counts (cases containing the feature): " +
                          ", ".join(f"{k}={v}" for k, v in sorted(_feature_counts.items())))
